@@ -318,6 +318,34 @@ def shared_cases(tr, X, Xn, val, strict, res, after, payload, desc):
             show(mget(post, 'attr')[0]), show(mget(after, 'attr')[0])), payload)
         return
     res.hist['shared:' + tr] += 1
+    # the keys of the converted attribute are then edited (a sweetener's next step): the other references still must
+    # not change (a key node that was an attribute value of a shared item before the conversion)
+    conv = yatiml.Node(root).get_attribute('attr')
+    if conv.is_mapping():
+        for step in ('rename', 'dashes', 'unders'):
+            try:
+                if step == 'rename':
+                    for k, _ in list(conv.yaml_node.value):
+                        if isinstance(k, yaml.ScalarNode) and k.tag == P + 'str':
+                            conv.rename_attribute(k.value, k.value + '-re_named')
+                elif step == 'dashes':
+                    conv.unders_to_dashes_in_keys()
+                else:
+                    conv.dashes_to_unders_in_keys()
+            except Exception as e:     # noqa
+                res.violation('C15:%s:key-edit-raises' % tr, desc + ', then %s of the keys of the result raised %s: %s' % (step, type(e).__name__, e), payload)
+                return
+            res.transitions += 1
+            res.traces += 1
+            post2 = view(root)
+            for name in ('coll', 'item', 'other'):
+                if mget(post2, name) != mget(pre, name):
+                    res.violation('C15:%s:key-edit-changes-shared-%s' % (tr, name),
+                                  desc + ', then editing the keys of the result (%s): attribute %r, which refers to the %s the attribute was made from, '
+                                  'changed from %s to %s' % (step, name, 'collection' if name == 'coll' else 'first item',
+                                                             show(mget(pre, name)[0]), show(mget(post2, name)[0])), payload)
+                    return
+        res.hist['shared-then-key-edit:' + tr] += 1
     if Xn[0] == 'm' and len(Xn[2]) >= 2:
         # one item object under the first two keys
         X2 = ('m', Xn[1], (Xn[2][0], (Xn[2][1][0], Xn[2][0][1])) + Xn[2][2:])
@@ -383,14 +411,85 @@ def contents(tier):
 KEYSETS = ['a', 'a_b', 'a-b', 'a_b-c', '_', '-', 'a__b', 'x-y-z', '']
 
 
+NONSTRING = [('null', 'null'), ('bool', 'true'), ('int', '7'), ('float', '1.5'), ('null', '~')]
+
+
+def retext(t, tag, old, new):
+    """the tree with every scalar of that tag and text given another text"""
+    k, tg, v = t
+    if k == 's':
+        return (k, tg, new) if (tg == P + tag and v == old) else t
+    if k == 'q':
+        return (k, tg, tuple(retext(i, tag, old, new) for i in v))
+    return (k, tg, tuple((retext(a, tag, old, new), retext(b, tag, old, new)) for a, b in v))
+
+
+def nonstring_unit(res, tier):
+    """attribute names are strings: a key that YAML reads as null / bool / int / float is not the attribute of the same
+    spelling.  Metamorphic oracle: a call that names an attribute N behaves on a node with a NON-string key spelt N exactly
+    as on the same node with that key spelt differently (the outer attribute, the key attribute and the value attribute
+    are each tried as N)"""
+    small = [X for X in contents('quick') if X is not None and X[0] in ('q', 'm') and len(X[2]) <= 2][:400]
+    for tag, text in NONSTRING:
+        other = {'null': 'Null', 'bool': 'false', 'int': '8', 'float': '2.5'}[tag] if text != '~' else 'null'
+        for tr in MODELS:
+            for X in small:
+                Xn = full(X)
+                variants = []
+                # (a) the outer attribute is named like a non-string key
+                variants.append(('outer', ('m', P + 'map', (((('s', P + tag, text)), Xn), (('s', P + 'str', 'other'), ('s', P + 'int', '1')))), text, KEY, VAL))
+                # (b) the items carry a non-string key spelt like the value attribute / the key attribute
+                items = Xn[2] if Xn[0] == 'q' else tuple(b for a, b in Xn[2])
+                if items and all(i[0] == 'm' for i in items):
+                    def withkey(i):
+                        return ('m', i[1], i[2] + ((('s', P + tag, text), ('s', P + 'str', 'x')),))
+                    Xk = ('q', Xn[1], tuple(withkey(i) for i in items)) if Xn[0] == 'q' else ('m', Xn[1], tuple((a, withkey(b)) for a, b in Xn[2]))
+                    variants.append(('value-attribute', wrap_full(Xk), 'attr', KEY, text))
+                    variants.append(('key-attribute', wrap_full(Xk), 'attr', text, VAL))
+                for what, tree, attr, keyattr, valattr in variants:
+                    outs = []
+                    for spelling in (text, other):
+                        t2 = retext(tree, tag, text, spelling)
+                        node = yatiml.Node(to_node(t2))
+                        try:
+                            if tr == 'seq_to_map':
+                                node.seq_attribute_to_map(attr, keyattr, valattr, True)
+                            elif tr == 'map_to_seq':
+                                node.map_attribute_to_seq(attr, keyattr, valattr)
+                            elif tr == 'index_to_map':
+                                node.index_attribute_to_map(attr, keyattr, valattr)
+                            else:
+                                node.map_attribute_to_index(attr, keyattr, valattr)
+                            o = ('returns',)
+                        except yatiml.SeasoningError:
+                            o = ('raises', 'SeasoningError')
+                        except Exception as e:     # noqa
+                            o = ('raises', type(e).__name__)
+                        outs.append((o, retext(view(node.yaml_node), tag, spelling, text)))
+                    res.states += 1
+                    res.transitions += 2
+                    res.traces += 2
+                    res.hist['nonstring-key:' + what] += 1
+                    if outs[0] != outs[1]:
+                        res.nontrivial += 1
+                        res.violation('C15:%s:non-string-key-taken-for-%s' % (tr, what),
+                                      '%s naming %s %r on %s: with the !!%s key spelt %r it %s and gives %s, spelt %r it %s and gives (respelt) %s' % (
+                                          tr, what, text, show(tree), tag, text, ' '.join(outs[0][0]), show(outs[0][1]), other, ' '.join(outs[1][0]), show(outs[1][1])),
+                                      {'transform': 'nonstring'})
+
+
 def units(tier):
     out = [(tr, val, strict) for tr in MODELS for val in (None, VAL) for strict in ((True, False) if tr == 'seq_to_map' else (True,))]
     out.append(('keys',))
+    out.append(('nonstring',))
     return out
 
 
 def run_unit(unit, tier):
     res = core.Result()
+    if unit[0] == 'nonstring':
+        nonstring_unit(res, tier)
+        return res
     if unit[0] == 'keys':
         for n in range(0, 4):
             for ks in itertools.permutations(KEYSETS, n):
@@ -445,6 +544,9 @@ def _tuplify(x):
 
 def replay(payload):
     res = core.Result()
+    if payload['transform'] == 'nonstring':
+        nonstring_unit(res, 'quick')
+        return bool(res.violations), (res.violations[0]['what'] if res.violations else 'non-string keys are never taken for attributes')
     if payload['transform'] == 'keys':
         return False, 'key-renaming replays are run through the unit (see evidence)'
     X = _tuplify(payload['X'])
